@@ -410,6 +410,72 @@ async fn post_handshake(ctx: &mut Ctx, ty: &str, cut: &str, fault: &str, order: 
 /// A peer comes back under the identity it announced while the socket still holds its old
 /// connection (ended but not yet noticed, or even still open - a half-open leftover): the
 /// old connection must be released, the new one must work, nobody else is disturbed.
+/// PUB/XPUB: a subscriber's connection fails writes at the moment its buffer is at the
+/// high-water mark (the only moment a publisher looks at a write result). That failure is
+/// the subscriber's alone: publishing goes on returning Ok and the other subscribers get
+/// every message.
+async fn pub_subscriber_fails_at_hwm(ctx: &mut Ctx, ty: &str, kind: WriteFail, nlive: usize, case: &Value) {
+    let sig = |k: &str| format!("C16/{k}/{ty}");
+    let mut sock = Sock::new(ty, None);
+    let mut subs = Vec::new();
+    for k in 0..nlive + 1 {
+        // several identities: the publisher walks its subscribers in hash order
+        match Peer::attach(&sock, "SUB", Some(format!("s{k}-{nlive}").as_bytes())).await {
+            Ok(p) => {
+                p.send(&[vec![1u8]]);
+                subs.push(p);
+            }
+            Err(e) => {
+                ctx.inconclusive(format!("C16 attach: {e}"));
+                return;
+            }
+        }
+    }
+    if ty == "XPUB" {
+        for _ in 0..subs.len() {
+            let _ = recv_now(&mut sock).await;
+        }
+    }
+    sim::settle().await;
+    let bad = nlive / 2;
+    subs[bad].conn.set_credit(Some(0));
+    let mut seen: Vec<usize> = subs.iter().map(|p| p.out_msgs().map(|m| m.len()).unwrap_or(0)).collect();
+    for round in 0..8u32 {
+        if round == 3 {
+            // by now more than the high-water mark is queued for the stalled subscriber
+            subs[bad].conn.fail_writes(kind);
+            subs[bad].conn.set_credit(None);
+        }
+        let mut msg: Frames = vec![b"t".to_vec()];
+        msg.extend(rc::tagged(90, round, &[70_000]));
+        let r = sim::complete(sock.send(&msg)).await;
+        if !matches!(r, Ok(Ok(()))) {
+            ctx.violation_with(
+                &sig("publish-fails-because-of-one-subscriber"),
+                format!("publish #{round} with {nlive} healthy subscribers and one whose connection fails writes ({kind:?}) at the high-water mark: {r:?}"),
+                case.clone(),
+            );
+            return;
+        }
+        for (i, p) in subs.iter().enumerate() {
+            if i == bad {
+                continue;
+            }
+            let n = p.out_msgs().map(|m| m.len()).unwrap_or(0);
+            if n != seen[i] + 1 {
+                ctx.violation_with(
+                    &sig("live-peer-disturbed"),
+                    format!("publish #{round}: healthy subscriber {i} received {} new messages (expected 1) while subscriber {bad}'s connection fails writes ({kind:?}) at the high-water mark", n - seen[i].min(n)),
+                    case.clone(),
+                );
+                return;
+            }
+            seen[i] = n;
+        }
+    }
+    ctx.count("pub_subscriber_write_failures_at_the_high_water_mark");
+}
+
 /// A send is waiting for a peer that does not read; another peer is in the middle of
 /// joining; then the first peer's connection fails. The failure is the first peer's alone:
 /// the send returns, the joiner becomes a peer, everybody else keeps working.
@@ -830,6 +896,13 @@ impl Prop for C16 {
                     }
                 }
             }
+            if matches!(ty, "PUB" | "XPUB") {
+                for kind in ["BrokenPipe", "ConnectionReset", "WriteZero"] {
+                    for nlive in [1usize, 3, 6] {
+                        v.push(json!({"kind": "pub_hwm_fail", "ty": ty, "fail": kind, "live": nlive}));
+                    }
+                }
+            }
             if matches!(ty, "PUSH" | "DEALER" | "ROUTER" | "REQ") {
                 for how in ["broken-pipe", "reset", "same-identity"] {
                     for nlive in [0usize, 1, 3] {
@@ -879,6 +952,16 @@ impl Prop for C16 {
             "post" => {
                 ctx.eval(1, true);
                 sim::run(post_handshake(ctx, &ty, s(case, "cut"), s(case, "fault"), s(case, "order"), u(case, "live") as usize, case));
+            }
+            "pub_hwm_fail" => {
+                ctx.eval(hash_str(&case.to_string()), true);
+                ctx.sample("pub_hwm_fail", || case.clone());
+                let kind = match s(case, "fail") {
+                    "BrokenPipe" => WriteFail::BrokenPipe,
+                    "ConnectionReset" => WriteFail::ConnectionReset,
+                    _ => WriteFail::WriteZero,
+                };
+                sim::run(pub_subscriber_fails_at_hwm(ctx, &ty, kind, u(case, "live") as usize, case));
             }
             "fail_join" => {
                 ctx.eval(hash_str(&case.to_string()), true);
@@ -936,6 +1019,7 @@ impl Prop for C16 {
             ("order/read-first", 400),
             ("order/write-first", 400),
             ("live_peer_talking_when_the_end_is_noticed", 200),
+            ("pub_subscriber_write_failures_at_the_high_water_mark", 12),
             ("end_observed", 700),
             ("observed_by_write_error", 100),
             ("errors_per_event/1", 100),
